@@ -264,7 +264,7 @@ def weave(item, ops, twin, fnname, rewrite_log):
             lines[ln] = head
             lines.insert(ln + 1, tail)
             origin.insert(ln + 1, dict(o))
-            insert(ln + 1, ['assert(false); // VACUITY-PROBE entry'], 'probe', 0)
+            insert(ln + 1, ['proof { if vacuity_probe_guard(-(%d as int)) { assert(false); } } // VACUITY-PROBE entry' % (item['line'])], 'probe', 0)
     for op, args, payload, uline in ops:
         if op in ('ret', 'sub', 'closure'):
             continue
@@ -324,7 +324,7 @@ def weave(item, ops, twin, fnname, rewrite_log):
             anchor, nth = _parse_anchor_args(args)
             ln = _find_anchor(lines, anchor, nth, is_code())
             if twin:
-                insert(ln + 1, ['assert(false); // VACUITY-PROBE'], 'probe', uline)
+                insert(ln + 1, ['proof { if vacuity_probe_guard(%d) { assert(false); } } // VACUITY-PROBE' % uline], 'probe', uline)
         else:
             raise UnitError('unknown weave op %s' % op)
     return lines, origin
@@ -384,6 +384,9 @@ def assemble(unit_path, repo, twin=False, root=None):
         s = l.strip()
         if not s.startswith('//@'):
             emit(l, {'kind': 'template', 'unit_line': i + 1, 'text': s})
+            if twin and not meta.get('_guard') and re.match(r'^verus!\s*\{', s):
+                emit('pub uninterp spec fn vacuity_probe_guard(k: int) -> bool;', {'kind': 'template', 'unit_line': i + 1, 'text': 'probe guard'})
+                meta['_guard'] = True
             i += 1
             continue
         d = s[3:].strip()
@@ -398,6 +401,10 @@ def assemble(unit_path, repo, twin=False, root=None):
                     meta['props'] = v.split(',')
                 elif k == 'rlimit':
                     meta['rlimit'] = float(v)
+                elif k == 'nolifetime':
+                    meta['nolifetime'] = v not in ('0', 'false')
+                    if meta['nolifetime']:
+                        meta['trusted'].append('T8 this unit is verified with `verus --no-lifetime`: borrow checking of GHOST code is skipped (only spec-mode reads are used, no tracked state); the executable code is the verbatim text rustc accepts in /repo')
             i += 1
         elif word == 'title':
             meta['title'] = rest
